@@ -64,12 +64,112 @@ def plan(tier, seed):
             cases.append(dict(lane='mixture', kind=kind, cls='gauss', K=K, N=N, D=D, lead=lead, init=ini, layout=pick(['c', 'c', 'tview', 'f']), peaked=bool(rng.uniform() < 0.3),
                               iters=int(pick([1, 2, 3, 5])) if kind != 'cbmm' else 1, opts=o, rs=[seed, 7, i]))
             i += 1
+    # models built from given parameters (not fitted): slices whose parameters differ by orders of magnitude or coincide inside a slice
+    for fam in ('bingham', 'cacg', 'watson', 'vmf', 'gauss'):
+        for r in range(S(tier, 12, 120) if fam != 'bingham' else S(tier, 10, 60)):
+            cases.append(dict(lane='model', fam=fam, D=int(rng.integers(2, 5)) if fam == 'bingham' else int(rng.integers(2, 7)), lead=rand_lead(rng, small=True), rs=[seed, 66, i]))
+            i += 1
     return cases
 
 
 def run_case(case, R):
     with instr.fp_guard():
-        (run_dist if case['lane'] == 'dist' else run_mixture)(case, R)
+        {'dist': run_dist, 'model': run_model}.get(case['lane'], run_mixture)(case, R)
+
+
+def run_model(case, R):
+    """log_pdf of a model whose parameters are stacked along leading axes = log_pdf of the model of each slice alone."""
+    from pb_bss import distribution as d
+    from pb_bss.distribution.complex_bingham import ComplexBingham
+    rng = gen.rng_of(case)
+    fam, D, lead = case['fam'], case['D'], tuple(case['lead'])
+    n = 6
+    kinds = []
+
+    def build(sl):
+        # sl: index tuple into the leading axes or () for the whole stack
+        P = {k: (v[sl] if sl != () else v) for k, v in par.items()}
+        if fam == 'bingham':
+            return ComplexBingham(covariance_eigenvectors=P['U'].copy(), covariance_eigenvalues=P['lam'].copy())
+        if fam == 'cacg':
+            return d.ComplexAngularCentralGaussian(covariance_eigenvectors=P['U'].copy(), covariance_eigenvalues=P['lam'].copy())
+        if fam == 'watson':
+            return d.ComplexWatson(mode=P['mode'].copy(), concentration=P['kappa'].copy())
+        if fam == 'vmf':
+            return d.VonMisesFisher(mean=P['mode'].copy(), concentration=P['kappa'].copy())
+        return d.Gaussian(mean=P['mean'].copy(), covariance=P['cov'].copy())
+
+    par = {}
+    if fam in ('bingham', 'cacg'):
+        U = np.empty((*lead, D, D), dtype=complex); lam = np.empty((*lead, D))
+        for idx in np.ndindex(*lead):
+            U[idx] = np.linalg.qr(gen.cnormal(rng, (D, D)))[0]
+            kind = ['plain', 'dup', 'neardup', 'large', 'small'][int(rng.integers(5))]
+            kinds.append(kind)
+            if fam == 'bingham':
+                scale = {'plain': 10.0, 'dup': 5.0, 'neardup': 5.0, 'large': 10 ** rng.uniform(2.5, 3.7), 'small': 0.3}[kind]
+                l = -np.sort(rng.uniform(0.05, 1.0, size=D))[::-1] * scale
+                l = l - l.max()                                       # maximum 0 as the trainer returns them
+                if kind == 'dup':
+                    l[1] = l[0]                                       # two exactly equal concentrations
+                if kind == 'neardup':
+                    l[1] = l[0] * (1 + 1e-11)
+                lam[idx] = rng.permutation(l)
+            else:
+                l = 10.0 ** rng.uniform(-6, 0, size=D) if kind in ('large', 'small') else rng.uniform(0.05, 1.0, size=D)
+                l = l / l.max()
+                if kind == 'dup':
+                    l[1] = l[0]
+                lam[idx] = l
+        par = dict(U=U, lam=lam)
+        x = oracles.unit(gen.cnormal(rng, (*lead, n, D)))
+    elif fam in ('watson', 'vmf'):
+        real = fam == 'vmf'
+        mode = oracles.unit(rng.standard_normal((*lead, D)) if real else gen.cnormal(rng, (*lead, D)))
+        kappa = np.empty(lead)
+        for idx in np.ndindex(*lead):
+            kind = ['plain', 'large', 'small', 'zero'][int(rng.integers(4))]
+            kinds.append(kind)
+            kappa[idx] = {'plain': rng.uniform(1, 20), 'large': 10 ** rng.uniform(2, 2.7), 'small': 10 ** rng.uniform(-8, -2), 'zero': 0.0 if not real else 1e-10}[kind]
+        par = dict(mode=mode, kappa=kappa)
+        x = oracles.unit(rng.standard_normal((*lead, n, D)) if real else gen.cnormal(rng, (*lead, n, D)))
+    else:
+        mean = rng.standard_normal((*lead, D)); cov = np.empty((*lead, D, D))
+        for idx in np.ndindex(*lead):
+            kind = ['plain', 'large', 'small', 'offset'][int(rng.integers(4))]
+            kinds.append(kind)
+            cov[idx] = gen.hpd(rng, D, cond=10.0, real=True) * {'plain': 1.0, 'large': 1e8, 'small': 1e-8, 'offset': 1.0}[kind]
+            if kind == 'offset':
+                mean[idx] += 1e4
+        par = dict(mean=mean, cov=cov)
+        x = mean[..., None, :] + np.einsum('...ab,...nb->...na', np.linalg.cholesky(cov), rng.standard_normal((*lead, n, D)))
+    info = dict(fam=fam, D=D, lead=list(lead), kinds=kinds)
+    per = {}
+    try:
+        for idx in np.ndindex(*lead):
+            per[idx] = np.asarray(build(idx).log_pdf(x[idx]))
+    except Exception as e:
+        if not instr.is_library_exception(e):
+            raise
+        R.count(f'{fam} model: a slice alone raised {type(e).__name__}')
+        R.undecided('C06.dist-logpdf', 'slice raised')
+        return
+    try:
+        LP = np.asarray(build(()).log_pdf(x))
+    except Exception as e:
+        if not instr.is_library_exception(e):
+            raise
+        R.fail('C06.dist-logpdf', f'stacked-raised/{fam}/model-log_pdf', f'{fam}.log_pdf of a stacked model raised {type(e).__name__} although every slice alone succeeds: {str(e)[:120]}', **info)
+        return
+    ok = LP.shape == (*lead, n)
+    dv = 0.0
+    if ok:
+        for idx, lp in per.items():
+            dv = max(dv, float(np.abs(LP[idx] - lp).max() / (1 + np.abs(lp).max())))
+    R.check('C06.dist-logpdf', ok and dv <= 1e-9, f'stack-vs-slice/{fam}/model-log_pdf', f'{fam}.log_pdf of a stacked model (shape {LP.shape}) differs from the models of its slices by {dv:.3e} (relative)', dev=dv, **info)
+    if len(set(kinds)) >= 2:
+        R.mark_nontrivial('model', fam, list(lead), D, tuple(sorted(set(kinds))))
+    R.sample(dict(lane='model', logpdf_dev=dv, **info))
 
 
 def _fit_fn(fam):
